@@ -7,12 +7,40 @@ def _ts_fields(text):
     m = re.match(r'^([0-9]{4})-([0-9][0-9]?)-([0-9][0-9]?)(?:(?:[Tt]|[ \t]+)([0-9][0-9]?):([0-9][0-9]):([0-9][0-9])(?:\.([0-9]*))?(?:[ \t]*(Z|([-+])([0-9][0-9]?)(?::([0-9][0-9]))?))?)?$', text)
     return m
 
+def _scalar_nodes(text):
+    """(tag, value) of every scalar node of every document, as composed with SafeLoader"""
+    import yaml
+    out = []; seen = set()
+    def walk(n):
+        if id(n) in seen: return
+        seen.add(id(n))
+        if isinstance(n, yaml.ScalarNode): out.append((n.tag, n.value))
+        elif isinstance(n, yaml.SequenceNode):
+            for x in n.value: walk(x)
+        elif isinstance(n, yaml.MappingNode):
+            for k, v in n.value: walk(k); walk(v)
+    try:
+        for n in yaml.compose_all(text, Loader=yaml.SafeLoader):
+            if n is not None: walk(n)
+    except Exception:
+        pass
+    return out
+def _doc_case(d): return d.get('loader') is not None or d.get('backend') is not None or d.get('form') is not None
+
 def int_without_digits(d):
+    if _doc_case(d) and d.get('exc') == 'ValueError':
+        return any(t.endswith(':int') or t.endswith('python/long') for t, v in _scalar_nodes(_text_of(d)) if re.fullmatch(r'[-+]?0[xb]_+', v))
+    return _int_without_digits(d)
+def _int_without_digits(d):
     """plain scalar that the YAML 1.1 int rule accepts but that has no digit after its base prefix (0x_, -0b__, ...):
     construct_yaml_int hands '0x'/'0b' minus underscores to int() and the ValueError escapes."""
     return d.get('exc') == 'ValueError' and d.get('kind') in ('converter_crash', 'load_crash') and re.fullmatch(r'[-+]?0[xb]_+', d.get('text', '')) is not None
 
 def timestamp_out_of_range(d):
+    if _doc_case(d) and d.get('exc') in ('ValueError', 'OverflowError'):
+        return any(_timestamp_out_of_range(dict(d, text=v, kind='load_crash')) for t, v in _scalar_nodes(_text_of(d)) if t.endswith(':timestamp'))
+    return _timestamp_out_of_range(d)
+def _timestamp_out_of_range(d):
     """plain scalar with the shape of a timestamp whose fields datetime rejects (month 13, day 30 of February, hour 25,
     minute/second 60+, UTC offset of 24h or more): the ValueError of datetime escapes construct_yaml_timestamp."""
     if d.get('exc') not in ('ValueError', 'OverflowError') or d.get('kind') not in ('converter_crash', 'load_crash'): return False
@@ -222,3 +250,71 @@ def libyaml_empty_plain_root(d):
     if d.get('docs') is not None:
         return any(x == 'S e' or x == 'ROOT S e' for x in d['docs']) and not (_opt(d, 'explicit_start') or _opt(d, 'canonical') or _opt(d, 'default_style') in ('"', "'"))
     return False
+
+_SCALAR_CONVERTERS = {'int': 'int', 'python/int': 'int', 'python/long': 'int', 'float': 'float', 'python/float': 'float', 'bool': 'bool', 'python/bool': 'bool',
+                      'timestamp': 'timestamp', 'python/complex': 'complex'}
+def explicit_tag_unsuitable_payload(d):
+    """a node explicitly tagged with a scalar type of the core / python value-like set whose content is not a text of that type
+    (`!!int abc`, `!!int ""`, `!!bool maybe`, `! "yes\\n"`, `!!float x`, `!!timestamp x`, `!!timestamp {=: [..]}`, `!!python/complex abc`):
+    the converter (int()/float()/dict lookup/regexp match/complex()) raises ValueError / IndexError / KeyError / AttributeError /
+    TypeError, which is not translated to a ConstructorError."""
+    if d.get('kind') not in ('non_yaml_exception', 'converter_crash', 'load_crash') or d.get('exc') not in ('ValueError', 'IndexError', 'KeyError', 'AttributeError', 'TypeError'): return False
+    text = d.get('text')
+    if text is None: return False
+    import yaml
+    from tools import spec11
+    found = [False]; seen = set()
+    def walk(n):
+        if id(n) in seen: return
+        seen.add(id(n))
+        short = n.tag[len('tag:yaml.org,2002:'):] if n.tag.startswith('tag:yaml.org,2002:') else None
+        conv = _SCALAR_CONVERTERS.get(short)
+        if conv:
+            if not isinstance(n, yaml.ScalarNode): found[0] = True
+            elif conv == 'complex': 
+                try: complex(n.value)
+                except ValueError: found[0] = True
+            else:
+                want = 'tag:yaml.org,2002:' + conv
+                if spec11.spec_tag(n.value) != want or n.value.endswith('\n'): found[0] = True
+        if isinstance(n, yaml.SequenceNode):
+            for x in n.value: walk(x)
+        elif isinstance(n, yaml.MappingNode):
+            for k, v in n.value: walk(k); walk(v)
+    try:
+        for n in yaml.compose_all(text, Loader=yaml.SafeLoader):
+            if n is not None: walk(n)
+    except Exception:
+        pass
+    return found[0]
+
+def full_tuple_key_unhashable(d):
+    """FullLoader: a `!!python/tuple` used as a mapping key whose elements are unhashable ([[1]]): the tuple passes the
+    Hashable test of construct_mapping and the dict insertion raises TypeError."""
+    return d.get('exc') == 'TypeError' and 'python/tuple' in (d.get('text') or '') and 'Full' in (d.get('loader') or '') or (d.get('exc') == 'TypeError' and 'python/tuple' in (d.get('text') or '') and d.get('loader') in ('UnsafeLoader', 'Loader'))
+
+def merge_source_tag_ignored(d):
+    """a foreign tag on a mapping (or on the sequence of mappings) that is the *value of a merge key*: flatten_mapping splices
+    the pairs of that node into the target without ever constructing the node, so its tag is never dispatched - nothing is
+    built from the tag, but it is not rejected either.  Holds only if every foreign tag of the document sits on such a node."""
+    if d.get('kind') not in ('unknown_tag_accepted', 'object_tag_accepted') or d.get('text') is None: return False
+    import yaml
+    core = set('tag:yaml.org,2002:' + x for x in ('null', 'bool', 'int', 'float', 'binary', 'timestamp', 'omap', 'pairs', 'set', 'str', 'seq', 'map', 'merge', 'value'))
+    foreign_elsewhere = [False]; foreign_merge = [False]; seen = set()
+    def walk(n, merge_src):
+        if n.tag not in core:
+            if merge_src: foreign_merge[0] = True
+            else: foreign_elsewhere[0] = True
+        if id(n) in seen: return
+        seen.add(id(n))
+        if isinstance(n, yaml.SequenceNode):
+            for x in n.value: walk(x, merge_src and isinstance(x, yaml.MappingNode))
+        elif isinstance(n, yaml.MappingNode):
+            for k, v in n.value:
+                walk(k, False)
+                walk(v, k.tag == 'tag:yaml.org,2002:merge' and isinstance(v, (yaml.MappingNode, yaml.SequenceNode)))
+    try:
+        for n in yaml.compose_all(d['text'], Loader=yaml.SafeLoader):
+            if n is not None: walk(n, False)
+    except Exception: return False
+    return foreign_merge[0] and not foreign_elsewhere[0]
